@@ -43,6 +43,10 @@ def run_all(chk, fsets, tier):
             re_.check_effects(chk, F, [s for s in rn.writer_specs() if s.group == "copy"], re_.writer_effects(), "P3.accounting", fs)
             re_.check_effects(chk, F, [s for s in rn.reader_specs() if s.group == "copy"], re_.reader_effects(), "P3.accounting", fs)
         re_.check_effects(chk, F, generic_copy_specs(), generic_effects(), "P3.accounting", fs)
+        if has_impls:
+            import rules_bits
+            chk.rule("P2.clean", floor=8 if i == 0 else 0, doc="bit-range domain: the reader's buffer is clean after copy_to (bits outside the valid window are zero, because a later refill ORs new words in)")
+            rules_bits.run_reader_cleanliness(chk, F, fs, "P2.clean", groups=("copy",))
         # P4: which impls override the provided methods under this feature set
         ov = set()
         for b in F.bodies:
